@@ -282,12 +282,23 @@ func gen(a hx.Args) {
 	// H. through the wire
 	wp := []string{"User:a", "User:a", "User:b", "User:*"}
 	wh := []string{"127.0.0.1", "*", "*", "10.9.9.9"}
+	wa := func(name string, pat, op, perm int) entry { return entry{"User:a", "*", 2, name, pat, op, perm} }
+	for _, es := range [][]entry{ // the three probes of DESIGN §8-b and their harmless counterparts
+		{wa("foo", 3, 4, 3), wa("*", 3, 4, 2)},
+		{wa("foo", 3, 4, 3), wa("foo", 3, 4, 2)},
+		{wa("foo", 3, 4, 3), wa("f", 4, 4, 2)},
+		{wa("foo", 3, 4, 3), wa("bar", 3, 4, 2)},
+		{wa("foo", 3, 4, 3)},
+		{wa("fo", 4, 4, 3), wa("foo", 4, 4, 2)},
+	} {
+		hx.Emit("wire %s", aclsTok(es))
+	}
 	for i := 0; i < a.N(250, 3000); i++ {
-		n := r.Intn(5)
+		n := r.Intn(4)
 		var es []entry
-		for k := 0; k < n; k++ {
+		for k := 0; k < n+2; k++ {
 			e := entry{principal: hx.Pick(r, wp), host: hx.Pick(r, wh), perm: 2 + r.Intn(2)}
-			if r.Chance(70) {
+			if r.Chance(60) {
 				e.perm = 3
 			}
 			switch r.Intn(10) {
@@ -301,7 +312,19 @@ func gen(a hx.Args) {
 				e.rt, e.name, e.pattern = 2, hx.Pick(r, []string{"a", "ab", "b", "*", "abc"}), 3+r.Intn(2)
 				e.op = hx.Pick(r, []int{4, 4, 4, 2, 3, 8})
 			}
+			if k < 2 && r.Chance(75) { // entries that apply to the clients: ALLOW first, then something that may dominate it
+				e.principal, e.host = hx.Pick(r, []string{"User:a", "User:*"}), hx.Pick(r, []string{"127.0.0.1", "*"})
+				if k == 0 {
+					e.perm = 3
+				}
+				if e.rt == 2 && r.Chance(70) {
+					e.op = hx.Pick(r, []int{4, 4, 2})
+				}
+			}
 			es = append(es, e)
+		}
+		if r.Chance(8) {
+			es = es[:r.Intn(2)]
 		}
 		hx.Emit("wire %s", aclsTok(es))
 	}
